@@ -104,6 +104,9 @@ pub fn configure_memory(mem: &mut sc62015_core::memory::MemoryImage, cfg: &Value
         } else {
             let data: Vec<u8> = (0..n as usize).map(|i| (i as u8) ^ 0x5A).collect();
             let _ = mem.load_memory_card(&data);
+            if cfg.get("card_removed").and_then(|v| v.as_bool()).unwrap_or(false) {
+                mem.set_memory_card_slot_present(false);      // a loaded card taken out again
+            }
         }
     }
     if let Some(Value::Array(r)) = cfg.get("ram_overlays") {
